@@ -71,7 +71,18 @@ def run(ctx):
         dead = np.zeros(numel, dtype=bool)
         if numel >= 4 and rng.random() < 0.4:
             dead[rng.permutation(numel)[: int(rng.integers(1, numel - 2))]] = True
-        probe.dead_elements = dead
+        how_dead = "attribute"
+        if reuse is None and rng.random() < 0.6:
+            # the dead elements declared where the library documents it, at construction, as per-element flags in the containers
+            # acquisition files use: booleans, 0/1 integers (uint8, int64), a plain list
+            how_dead = ["bool array", "uint8 flags", "int64 flags", "list of 0/1", "list of bools"][int(rng.integers(0, 5))]
+            flags = {"bool array": dead.copy(), "uint8 flags": dead.astype(np.uint8), "int64 flags": dead.astype(np.int64),
+                     "list of 0/1": [int(b) for b in dead], "list of bools": [bool(b) for b in dead]}[how_dead]
+            probe = arim.Probe(probe.locations.coords.copy(), probe.frequency, orientations=None if probe.orientations is None else probe.orientations.coords.copy(),
+                               dead_elements=flags, pcs=probe.pcs.copy())
+        else:
+            probe.dead_elements = dead
+        ctx.count("dead_elements_given_as:" + how_dead)
         # whatever values on the timetraces the registration does not use (non-pulse-echo, dead elements): positive,
         # negative, sentinels, NaN, huge
         def garbage():
@@ -85,7 +96,7 @@ def run(ctx):
         x0 = probe.locations.x.copy()
         fr = fixtures.make_frame(np.zeros((len(tx), 4)), 0.0, 1e-8, tx, rx, probe, None)
         cj = {"op": "move_probe_over_flat_surface", "numel": numel, "x": x0.tolist(), "theta": theta, "standoff": standoff, "tx": tx.tolist(), "rx": rx.tolist(),
-              "dist": dist.tolist(), "dead": dead.tolist(), "reference": refarg}
+              "dist": dist.tolist(), "dead": dead.tolist(), "dead_elements_given_as": how_dead, "reference": refarg}
         try:
             fr2, iso = measurement.move_probe_over_flat_surface(fr, dist.copy(), full_output=True)
         except Exception as e:
